@@ -242,55 +242,44 @@ def odd_label_orbit(m, orb):
     return any(v >= 3 and v % 2 for v in c.values())
 
 
+def _cycle_bonds(m):
+    """bonds lying on a cycle of the full graph (coordinate bonds included: the writer closes such cycles with digits too)"""
+    from . import mcb
+    adj = {n: set(nb) for n, nb in m._bonds.items()}
+    _, bridges = mcb.blocks_and_bridges(adj)
+    return {frozenset((i, j)) for i, j, _ in m.bonds()} - set(bridges)
+
+
 def radialene_stereo(m):
     """a ring atom that ends a labelled double bond and whose two ring neighbours both end other labelled double bonds
     (three mutually cross-conjugated stereo double bonds around ring bonds, e.g. C/C=C1/CCC/C(=C\\C)/C1=C/C): routes to the
     known writer defect on shared single-bond marks (one-pass mark assignment in MoleculeSmiles.__ct_map)"""
+    cyc = _cycle_bonds(m)
     ends = {}
     for i, j, b in m.bonds():
         if b.order == 2 and b.stereo is not None:
             ends.setdefault(i, set()).add(j)
             ends.setdefault(j, set()).add(i)
     for a, partners in ends.items():
-        nb = [x for x, b in m._bonds[a].items() if b.order == 1 and x in ends and b.in_ring]
+        nb = [x for x, b in m._bonds[a].items() if b.order == 1 and x in ends and frozenset((a, x)) in cyc]
         if len(nb) >= 2:
             return True
     return False
 
 
 def ring_diene_stereo(m):
-    """two labelled endocyclic double bonds joined by a ring single bond (conjugated diene inside a macrocycle, e.g.
-    C1CC/C=C/C=C/CCCCC1): routes to the known writer defect for spellings that close the ring on one of the double bonds"""
-    ends = {}
+    """a labelled double bond on a cycle, conjugated through a single bond of that cycle with another labelled double bond
+    (C1CC/C=C/C=C/CCCCC1, C/C=C1\\C=C\\CCCCCCCC1): routes to the known writer defect for spellings that close the ring on the
+    endocyclic double bond"""
+    cyc = _cycle_bonds(m)
+    ends, endo = {}, set()
     for i, j, b in m.bonds():
-        if b.order == 2 and b.stereo is not None and b.in_ring:
+        if b.order == 2 and b.stereo is not None:
             ends[i] = j
             ends[j] = i
+            if frozenset((i, j)) in cyc:
+                endo |= {i, j}
     for i, j, b in m.bonds():
-        if b.order == 1 and b.in_ring and i in ends and j in ends and ends[i] != j:
-            return True
-    return False
-
-
-def aromatic_p_ambiguity(m):
-    """an aromatic ring system holds a neutral three-coordinate P/As (lone-pair donor or P(V)H for the aromatic-text reader) and
-    another neutral two-coordinate aromatic N/P/As written without hydrogen count: the reader has to guess which of them is
-    the pyrrole-type atom.  Routes to the known finding on that guess depending on atom order (c1cnp(C)c1 vs c1ccnp1C)"""
-    arom = {n: [k for k, b in nb.items() if b.order == 4] for n, nb in m._bonds.items()}
-    seen = set()
-    for s in arom:
-        if s in seen or not arom[s]:
-            continue
-        comp, stack = {s}, [s]
-        while stack:
-            for k in arom[stack.pop()]:
-                if k not in comp:
-                    comp.add(k)
-                    stack.append(k)
-        seen |= comp
-        three = [n for n in comp if m.atom(n).atomic_number in (15, 33) and not m.atom(n).charge and len(m._bonds[n]) == 3]
-        two = [n for n in comp if m.atom(n).atomic_number in (7, 15, 33) and not m.atom(n).charge and len(m._bonds[n]) == 2
-               and not m.atom(n).implicit_hydrogens]
-        if three and two:
+        if b.order == 1 and frozenset((i, j)) in cyc and i in ends and j in ends and ends[i] != j and (i in endo or j in endo):
             return True
     return False
